@@ -450,6 +450,98 @@ def wildcard_order(col, rng):
                           % (n, got, [k for _, _, k in log]), None)
 
 
+def recursive_wildcard_order(col, rng):
+    """'**' lists a value and then its descendants level by level (breadth first): a destination '**.key' assigns in that order - seen
+    by containers that record their item assignments, and by what is already assigned when the k-th match refuses the assignment"""
+    def tree(depth, log, order_out, width):
+        node = gen.LogDict()
+        node._log = log
+        if depth > 0:
+            for i in range(rng.randint(0, width)):
+                dict.__setitem__(node, 'c%d' % i, tree(depth - rng.randint(1, 2), log, order_out, width))
+        return node
+
+    def bfs(root):
+        out, queue = [], [root]
+        while queue:
+            n = queue.pop(0)
+            out.append(n)
+            queue.extend(v for v in dict.values(n) if isinstance(v, dict))
+        return out
+    for rep in range(16):
+        log = []
+        root = tree(rng.randint(2, 4), log, None, 3)
+        nodes = bfs(root)
+        spec = ['**.flag', Path(T.__starstar__(), 'flag'), T.__starstar__()['flag']][rep % 3]
+        got = call(assign, root, spec, 'NEW')
+        sets = [i for op, i, k in log if op == 'setitem' and k == 'flag']
+        col.case(('recursive-wildcard-order', len(nodes), rep % 3), True)
+        col.count('assignments_attempted')
+        if not got.ok or sets != [id(n) for n in nodes]:
+            pos = {id(n): j for j, n in enumerate(nodes)}
+            col.violation('C11/wildcard-assignment-order:recursive', "assign(.., %s, 'NEW') over a tree of %d dicts of uneven depth: %r; the dicts were "
+                          "assigned in the order %s of their breadth-first numbering" % (short(spec), len(nodes), got if not got.ok else 'returned',
+                                                                                         [pos.get(i, '?') for i in sets]), None)
+    # the k-th match refuses: everything before it in that order is assigned, nothing after it
+    for shape in range(6):
+        deep = {'x': {'y': {}}}
+        t = [{'a': deep, 'b': (), 'c': {}}, {'a': {'x': {}}, 'b': {'z': ()}, 'c': {'w': {}}}, {'p': {'q': {'r': {}}}, 's': 5, 'u': {}}][shape % 3]
+        import copy
+        t = copy.deepcopy(t)
+        got = call(assign, t, '**.flag' if shape < 3 else Path(T.__starstar__(), 'flag'), 1)
+        # expected state: walk breadth first, assign until the first value that cannot take an item
+        want = copy.deepcopy(t)
+        for d_ in _all_dicts(want):
+            d_.pop('flag', None)
+        queue = [want]
+        while queue:
+            n = queue.pop(0)
+            if not isinstance(n, dict):
+                break
+            queue.extend(list(n.values()))
+            n['flag'] = 1
+        col.case(('recursive-wildcard-fault', shape), True)
+        col.count('assignments_attempted')
+        if got.ok or t != want:
+            col.violation('C11/wildcard-assignment-order:recursive-refused-at-the-kth-match', "assign(.., '**.flag', 1): %r ; target now %r, assigning in "
+                          "breadth-first order up to the first refusal gives %r" % (got if got.ok else type(got.exc).__name__, t, want), None)
+
+
+def _all_dicts(v):
+    if isinstance(v, dict):
+        yield v
+        for x in list(v.values()):
+            yield from _all_dicts(x)
+
+
+class _AttrTuple(tuple):
+    """a tuple subclass whose instances have a __dict__"""
+
+
+def sequences_that_refuse_assignment(col):
+    """a plain segment / T[index] on an instance of a tuple subclass is an item assignment the tuple refuses: an error, and neither the
+    tuple nor its attribute namespace changes - through assign(), Assign specs and a Glommer alike"""
+    from glom import Glommer, Assign
+    gl, gl_plain = Glommer(), Glommer(register_default_types=True)
+    runners = [('assign()', lambda t, p, v, **kw: assign(t, p, v, **kw)), ('Glommer().glom(Assign)', lambda t, p, v, **kw: gl.glom(t, Assign(p, v, **kw))),
+               ('second Glommer', lambda t, p, v, **kw: gl_plain.glom(t, Assign(p, v, **kw))), ('glom(Assign)', lambda t, p, v, **kw: G(t, Assign(p, v, **kw)))]
+    for rname, runner in runners:
+        for desc, path, kw in (('plain index', 'pt.0', {}), ('plain index past the end', 'pt.5', {}), ('Path index', Path('pt', 1), {}), ('T index', T['pt'][0], {}),
+                               ('below the tuple with missing=', 'pt.5.z', {'missing': dict}), ('named like an attribute', 'pt.label', {}),
+                               ('in a list of tuples', 'pts.*.0', {})):
+            pt = _AttrTuple((1, 2, 3))
+            pt.label = 'keep'
+            t = {'pt': pt, 'pts': [_AttrTuple((7, 8))]}
+            got = call(runner, t, path, 'NEW', **kw)
+            col.case(('tuple-subclass', rname, desc), True)
+            col.count('assignments_attempted')
+            col.count('failing_edits')
+            state = (tuple(t['pt']), dict(vars(t['pt'])), tuple(t['pts'][0]), dict(vars(t['pts'][0])))
+            if got.ok or not isinstance(got.exc, GlomError) or state != ((1, 2, 3), {'label': 'keep'}, (7, 8), {}):
+                col.violation('C11/tuple-subclass-instance-assigned-by-attribute', '%s: %s %r on an instance of a tuple subclass with a __dict__: %r ; '
+                              'tuple / attributes now %r' % (rname, desc, path, got, state), None)
+
+
 def deep_wildcards(col, rng):
     """1-4 wildcard layers in the destination: assignment at every match, final segment a key or an index"""
     import copy
@@ -838,6 +930,8 @@ def run(ctx):
     if ctx.shard == 0:
         s_rooted(col, rng)
         wildcard_order(col, rng)
+        recursive_wildcard_order(col, rng)
+        sequences_that_refuse_assignment(col)
         deep_wildcards(col, rng)
         reused_assign_object(col, rng)
         missing_before_wildcard(col)
